@@ -372,10 +372,13 @@ class MgmComputation(VariableComputation):
                 self.value_selection(self.current_value, cost)
 
             new_values, val_cost = self._compute_best_value()
-            self._gain = self.current_cost - val_cost
-            if ((self._mode == "min") & (self._gain > 0)) or (
-                (self._mode == "max") & (self._gain < 0)
-            ):
+            # The gain is the improvement brought by the move: it is positive
+            # for both objectives, so that gains can be compared with neighbors.
+            if self._mode == "min":
+                self._gain = self.current_cost - val_cost
+            else:
+                self._gain = val_cost - self.current_cost
+            if self._gain > 0:
                 self._new_value = random.choice(new_values)
             else:
                 self._new_value = self.current_value
@@ -522,7 +525,7 @@ class MgmComputation(VariableComputation):
                         f"Selects new value {self._new_value}, "
                         f"best gain: {self._gain} > {gains}"
                     )
-                self.value_selection(self._new_value, self.current_cost - self._gain)
+                self.value_selection(self._new_value, self._cost_after_move())
             elif self._gain == max_neighbors:
                 # same gain, break ties through variable ordering to
                 # determine which variable can change its value
@@ -545,6 +548,11 @@ class MgmComputation(VariableComputation):
                     f"Waiting for gain msg from other neighbors : {waited}"
                 )
 
+    def _cost_after_move(self):
+        if self._mode == "min":
+            return self.current_cost - self._gain
+        return self.current_cost + self._gain
+
     def _break_ties(self, max_gain):
         if self.break_mode == random:
             ties = sorted(
@@ -561,7 +569,7 @@ class MgmComputation(VariableComputation):
                         f"Won random ties for equal gain {self._gain} , "
                         f"selects new value {self._new_value} - {ties}"
                     )
-                self.value_selection(self._new_value, self.current_cost - self._gain)
+                self.value_selection(self._new_value, self._cost_after_move())
             else:
                 if self.logger.isEnabledFor(logging.INFO):
                     self.logger.info(
@@ -583,7 +591,7 @@ class MgmComputation(VariableComputation):
                         f"Won lexic ties for equal gain {self._gain} , "
                         f"selects new value {self._new_value} - {ties}"
                     )
-                self.value_selection(self._new_value, self.current_cost - self._gain)
+                self.value_selection(self._new_value, self._cost_after_move())
             else:
                 if self.logger.isEnabledFor(logging.INFO):
                     self.logger.info(
